@@ -145,7 +145,7 @@ pub fn e2_run(ctx: &Ctx, spec: E2Spec) -> Outcome {
         format!("{}_{}", spec.family, ctx.tier)
     };
     let nlibs = if spec.programs.len() >= 16 { 8 } else { 1 };
-    let cspec = CorpusSpec { name: &corpus_name, programs: &spec.programs, alias: spec.alias, extra_files: vec![] };
+    let cspec = CorpusSpec { name: &corpus_name, programs: &spec.programs, alias: spec.alias, extra_files: vec![], bin_skip: vec![] };
     let dir = corpus::write_corpus(&cspec, nlibs);
     let build = corpus::cargo_build(&dir, &[], "corpus");
     if !build.ok {
@@ -156,13 +156,29 @@ pub fn e2_run(ctx: &Ctx, spec: E2Spec) -> Outcome {
             by_prog.entry(stem).or_default().push(format!("{}:{}: {}", e.file, e.line, e.message));
         }
         let mut any = false;
+        let mut shrunk_done = 0usize;
         for p in &spec.programs {
             if let Some(errs) = by_prog.get(&p.id) {
                 any = true;
                 let src = crate::render::render_module(p, &crate::render::RenderOpts { sv: spec.alias.unwrap_or("sylvia").into(), glue: true });
-                let v = json!({"property": ctx.prop, "family": spec.family, "kind": "compile_regression", "program": p.id,
+                let mut v = json!({"property": ctx.prop, "family": spec.family, "kind": "compile_regression", "program": p.id,
                     "model": p, "errors": errs, "source": src, "seed": ctx.seed, "tier": ctx.tier});
-                let path = ctx.save_replay(&v);
+                let mut path = ctx.save_replay(&v);
+                if shrink_allowed(ctx, shrunk_done) {
+                    shrunk_done += 1;
+                    announce_unshrunk(ctx, "compile", &path);
+                    let message = build.errors.iter().find(|e| Path::new(&e.file).file_stem().map(|s| s.to_string_lossy() == p.id.as_str()).unwrap_or(false)).map(|e| e.message.clone()).unwrap_or_default();
+                    let sspec = crate::shrink::ShrinkSpec { family: spec.family, exe_prop: spec.exe_prop.unwrap_or(&ctx.prop), cases: spec.cases, alias: spec.alias, budget_s: if ctx.quick() { 240 } else { 900 } };
+                    if let Some(s) = crate::shrink::shrink(ctx, &sspec, &crate::shrink::Target::Compile { message }, p) {
+                        v["unshrunk_replay"] = json!(path.display().to_string());
+                        v["program"] = json!(s.program.id);
+                        v["source"] = json!(crate::render::render_module(&s.program, &crate::render::RenderOpts { sv: spec.alias.unwrap_or("sylvia").into(), glue: true }));
+                        v["model"] = json!(s.program);
+                        v["errors"] = json!(s.errors);
+                        v["shrink"] = s.stats;
+                        path = ctx.save_replay(&v);
+                    }
+                }
                 out.violations.push(("compile".into(), format!("valid generated program {} does not compile: {}", p.id, errs[0]), path));
                 if out.violations.len() >= 3 {
                     break;
@@ -220,6 +236,7 @@ pub fn e2_run(ctx: &Ctx, spec: E2Spec) -> Outcome {
             out.inconclusive = Some(format!("harness errors: {}", h.iter().take(3).map(|x| x.to_string()).collect::<Vec<_>>().join(" | ")));
         }
     }
+    let mut shrunk_done = 0usize;
     for f in rep["failures"].as_array().cloned().unwrap_or_default() {
         let key = f["key"].as_str().unwrap_or("").to_string();
         let known = f["detail"]["known"].as_bool().unwrap_or(false);
@@ -234,14 +251,46 @@ pub fn e2_run(ctx: &Ctx, spec: E2Spec) -> Outcome {
         }
         let pid = f["program"].as_str().unwrap_or("");
         let model = spec.programs.iter().find(|p| p.id == pid);
-        let v = json!({"property": ctx.prop, "family": spec.family, "program": pid, "model": model,
+        let mut v = json!({"property": ctx.prop, "family": spec.family, "program": pid, "model": model,
             "salt": f["detail"]["salt"], "case": f["detail"]["case"], "key": key, "what": f["what"],
             "detail": f["detail"]["detail"], "seed": ctx.seed, "tier": ctx.tier,
             "source": model.map(|m| crate::render::render_source(m, &crate::render::RenderOpts::default()))});
-        let path = ctx.save_replay(&v);
+        let mut path = ctx.save_replay(&v);
+        // program-level shrinking (values were shrunk by proptest inside the corpus binary)
+        if let (true, Some(m)) = (shrink_allowed(ctx, shrunk_done), model) {
+            shrunk_done += 1;
+            announce_unshrunk(ctx, &key, &path);
+            let sspec = crate::shrink::ShrinkSpec { family: spec.family, exe_prop: spec.exe_prop.unwrap_or(&ctx.prop), cases: spec.cases, alias: spec.alias, budget_s: if ctx.quick() { 240 } else { 900 } };
+            if let Some(s) = crate::shrink::shrink(ctx, &sspec, &crate::shrink::Target::Runtime { key: key.clone() }, m) {
+                if let Some(f2) = &s.failure {
+                    v["unshrunk_replay"] = json!(path.display().to_string());
+                    v["program"] = json!(s.program.id);
+                    v["source"] = json!(crate::render::render_source(&s.program, &crate::render::RenderOpts::default()));
+                    v["model"] = json!(s.program);
+                    v["salt"] = f2["detail"]["salt"].clone();
+                    v["case"] = f2["detail"]["case"].clone();
+                    v["detail"] = f2["detail"]["detail"].clone();
+                    v["what"] = f2["what"].clone();
+                    v["shrink"] = s.stats;
+                    path = ctx.save_replay(&v);
+                }
+            }
+        }
         out.violations.push((key, f["what"].as_str().unwrap_or("").to_string(), path));
     }
     out
+}
+
+fn shrink_allowed(ctx: &Ctx, done: usize) -> bool {
+    ctx.replay.is_none() && std::env::var("VERIF_NO_SHRINK").is_err() && done < if ctx.quick() { 1 } else { 2 }
+}
+
+/// The violation is reported at once (the shrinking that follows can take minutes).
+fn announce_unshrunk(ctx: &Ctx, key: &str, path: &Path) {
+    use std::io::Write;
+    println!("VIOLATION property={} replay={}", ctx.prop, path.display());
+    println!("  key={key} (unshrunk program; shrinking the program now)");
+    let _ = std::io::stdout().flush();
 }
 
 pub fn finish(ctx: &Ctx, out: Outcome) -> i32 {
